@@ -65,127 +65,6 @@ theorem squeeze_go_init_none (S : List Nat) (k : Nat) (ds : List Nat)
     simp only [View.init, List.map_cons, squeeze_go_cons_pick, h0, this]
     rfl
 
-/-- **Fusion**: on an initial view, `Slice` followed by `Squeeze` acts axis by axis as
-`graphAxisSlicePath` does, provided the entry list and the squeeze list look up, at position
-`k + j`, what the `j`-th component registers. -/
-theorem slice_squeeze_axiswise (E : List SliceEntry) (S : List Nat) :
-    ∀ (comps : List Comp) (ds : List Nat) (k : Nat) (r : View),
-      comps.length ≤ ds.length →
-      (∀ c ∈ comps, c.basic = true) →
-      (∀ e ∈ E, e.step ≠ 0) →
-      (∀ j c, comps[j]? = some c → E.find? (fun e => e.axis == k + j) = entryOf c (k + j)) →
-      (∀ j, comps.length ≤ j → E.find? (fun e => e.axis == k + j) = none) →
-      (∀ j c, comps[j]? = some c → S.contains (k + j) = c.isInt) →
-      (∀ j, comps.length ≤ j → S.contains (k + j) = false) →
-      opSqueeze.go S k (opSlice.go E k (View.init ds)) = .ok r →
-      axiswise graphAxisSlicePath comps ds = .ok r := by
-  intro comps
-  induction comps with
-  | nil =>
-    intro ds k r _ _ _ _ hE' _ hS' h
-    rw [slice_go_init_none E k ds (fun j => hE' j (by simp)),
-        squeeze_go_init_none S k ds (fun j => hS' j (by simp))] at h
-    simpa [axiswise] using h
-  | cons c cs ih =>
-    intro ds k r hlen hb hz hE hE' hS hS' h
-    cases ds with
-    | nil => simp at hlen
-    | cons d ds =>
-      have hE0 := hE 0 c (by simp)
-      have hS0 := hS 0 c (by simp)
-      simp only [Nat.add_zero] at hE0 hS0
-      have hbc : c.basic = true := hb c (by simp)
-      -- tail hypotheses
-      have hlen' : cs.length ≤ ds.length := by simpa using hlen
-      have hb' : ∀ c ∈ cs, c.basic = true := fun c hc => hb c (by simp [hc])
-      have hEt : ∀ j c, cs[j]? = some c → E.find? (fun e => e.axis == k + 1 + j) = entryOf c (k + 1 + j) := by
-        intro j c' hj
-        have := hE (j + 1) c' (by simpa using hj)
-        rwa [show k + (j + 1) = k + 1 + j by omega] at this
-      have hEt' : ∀ j, cs.length ≤ j → E.find? (fun e => e.axis == k + 1 + j) = none := by
-        intro j hj
-        have := hE' (j + 1) (by simp; omega)
-        rwa [show k + (j + 1) = k + 1 + j by omega] at this
-      have hSt : ∀ j c, cs[j]? = some c → S.contains (k + 1 + j) = c.isInt := by
-        intro j c' hj
-        have := hS (j + 1) c' (by simpa using hj)
-        rwa [show k + (j + 1) = k + 1 + j by omega] at this
-      have hSt' : ∀ j, cs.length ≤ j → S.contains (k + 1 + j) = false := by
-        intro j hj
-        have := hS' (j + 1) (by simp; omega)
-        rwa [show k + (j + 1) = k + 1 + j by omega] at this
-      simp only [View.init, List.map_cons, slice_go_cons_pick, squeeze_go_cons_pick, hS0] at h
-      simp only [axiswise]
-      -- case analysis on the component
-      cases c with
-      | tScalar v => simp [Comp.basic] at hbc
-      | tVec v => simp [Comp.basic] at hbc
-      | full =>
-        have hl : lookupSlice E k (List.range d) = List.range d :=
-          lookupSlice_none _ _ _ (by rw [hE0]; rfl)
-        simp only [Comp.isInt, hl, Bool.false_eq_true, if_false] at h
-        cases hr : opSqueeze.go S (k + 1) (opSlice.go E (k + 1) (List.map (fun d => AxisMap.pick (List.range d)) ds)) with
-        | error e => simp [hr, bind, Except.bind] at h
-        | ok r' =>
-          have := ih ds (k + 1) r' hlen' hb' hz hEt hEt' hSt hSt' (by simpa [View.init] using hr)
-          simp only [hr, bind, Except.bind, pure, Except.pure] at h
-          simp [graphAxisSlicePath, this, bind, Except.bind, pure, Except.pure]
-          simpa using h
-      | int i =>
-        have hl : lookupSlice E k (List.range d) = onnxSliceList (List.range d) i (i + 1) 1 :=
-          lookupSlice_some _ _ _ ⟨k, i, i + 1, 1⟩ (by rw [hE0]; rfl)
-        simp only [Comp.isInt, hl, if_true] at h
-        cases hs : single? (onnxSliceList (List.range d) i (i + 1) 1) with
-        | error e => simp [hs, bind, Except.bind] at h
-        | ok s =>
-          cases hr : opSqueeze.go S (k + 1) (opSlice.go E (k + 1) (List.map (fun d => AxisMap.pick (List.range d)) ds)) with
-          | error e => simp [hs, hr, bind, Except.bind] at h
-          | ok r' =>
-            have := ih ds (k + 1) r' hlen' hb' hz hEt hEt' hSt hSt' (by simpa [View.init] using hr)
-            simp only [hs, hr, bind, Except.bind, pure, Except.pure] at h
-            simp [graphAxisSlicePath, hs, this, bind, Except.bind, pure, Except.pure]
-            simpa using h
-      | slice lo hi st =>
-        simp only [Comp.isInt, Bool.false_eq_true, if_false] at h
-        cases hr : opSqueeze.go S (k + 1) (opSlice.go E (k + 1) (List.map (fun d => AxisMap.pick (List.range d)) ds)) with
-        | error e => simp [hr, bind, Except.bind] at h
-        | ok r' =>
-          have hrec := ih ds (k + 1) r' hlen' hb' hz hEt hEt' hSt hSt' (by simpa [View.init] using hr)
-          simp only [hr, bind, Except.bind, pure, Except.pure] at h
-          -- the axis itself
-          have hax : graphAxisSlicePath (.slice lo hi st) (List.range d)
-              = .ok (.pick (lookupSlice E k (List.range d))) := by
-            simp only [graphAxisSlicePath]
-            by_cases hskip : lo = .none ∧ hi = .none ∧ st = .none
-            · have : entryOf (.slice lo hi st) k = none := by simp [entryOf, hskip]
-              rw [lookupSlice_none _ _ _ (by rw [hE0]; exact this)]
-              simp [hskip]
-            · simp only [hskip, if_false]
-              cases st with
-              | dyn v => simp [Comp.basic] at hbc
-              | none =>
-                have e : (Bnd.none).val? = none := rfl
-                have hent : entryOf (.slice lo hi .none) k
-                    = some ⟨k, (convBounds lo.val? hi.val? 1).1, (convBounds lo.val? hi.val? 1).2, 1⟩ := by
-                  show (if _ then _ else _) = _; rw [if_neg hskip]; simp [convSliceEntry, e]
-                rw [lookupSlice_some _ _ _ _ (by rw [hE0]; exact hent)]
-                simp [e]
-              | const v =>
-                have e : (Bnd.const v).val? = some v := rfl
-                have hent : entryOf (.slice lo hi (.const v)) k
-                    = some ⟨k, (convBounds lo.val? hi.val? v).1, (convBounds lo.val? hi.val? v).2, v⟩ := by
-                  show (if _ then _ else _) = _; rw [if_neg hskip]; simp [convSliceEntry, e]
-                have hfind := hE0
-                rw [hent] at hfind
-                have hv : v ≠ 0 := by
-                  have := hz _ (List.mem_of_find?_eq_some hfind)
-                  simpa using this
-                have hb0 : (v == 0) = false := by simpa using hv
-                rw [lookupSlice_some _ _ _ _ hfind]
-                simp [e, hb0]
-          simp [hax, hrec, bind, Except.bind, pure, Except.pure]
-          simpa using h
-
 theorem convSliceEntry_axis (j : Nat) (lo hi st : Bnd) (e : SliceEntry)
     (h : convSliceEntry j lo hi st = some e) : e.axis = j := by
   cases st with
